@@ -261,6 +261,18 @@ func replay(all []*Scenario, a *Args) int {
 	}
 	res := RunOne(scn, rf.Tier, rf.Seed, NewReplay(rf.Choices), true)
 	checkRace(res, scn.Property)
+	if EngineB && res.Violation == nil && res.Harness == "" {
+		// Race detection depends on happens-before edges, and the first run of a fresh
+		// process creates many incidental ones (lazily initialised caches in encoding/json,
+		// net/http, regexp ... are filled by whichever task gets there first), which can
+		// mask a race that a warmed-up worker process reports. The same trace is therefore
+		// executed a second time in the now warm process.
+		res2 := RunOne(scn, rf.Tier, rf.Seed, NewReplay(rf.Choices), true)
+		checkRace(res2, scn.Property)
+		if res2.Violation != nil || res2.Harness != "" {
+			res = res2
+		}
+	}
 	if a.Out != "" {
 		data, _ := json.Marshal(res)
 		os.WriteFile(a.Out, data, 0o644)
@@ -552,7 +564,12 @@ func minimiseAndConfirm(a *Args, tmp string, res *Result, run int) (string, erro
 				i = -1
 				continue
 			}
-			return "", fmt.Errorf("replay of %s in a fresh process exited %d instead of reproducing %s", use, code, rf.Class)
+			os.MkdirAll(a.ReplayDir, 0o755)
+			keep := filepath.Join(a.ReplayDir, fmt.Sprintf("%s-%s-%d-%d.unconfirmed.json", a.Property, a.Tier, a.Seed, run))
+			if d, err := os.ReadFile(use); err == nil {
+				os.WriteFile(keep, d, 0o644)
+			}
+			return "", fmt.Errorf("replay of %s (kept as %s) in a fresh process exited %d instead of reproducing %s", use, keep, code, rf.Class)
 		}
 		d, _ := os.ReadFile(ra.Out)
 		var r Result
